@@ -108,6 +108,15 @@ func Solve(script string, workdir, name string, timeoutMs int, all bool) SolveRe
 	}
 	go func() { wg.Wait() }()
 	if res.Backend == "" {
+		allErr := len(res.All) > 0
+		for _, v := range res.All {
+			if !strings.HasPrefix(v, "error:") {
+				allErr = false
+			}
+		}
+		if allErr {
+			res.Status = "error"
+		}
 		res.Ms = time.Since(start).Milliseconds()
 		var parts []string
 		for k, v := range res.All {
